@@ -12,7 +12,7 @@ Proved here
                              `Σ_κ e_κ(u 1, …, u (τ-1)) · Σ_j connCount (κ+1) j · φ^j (1-φ)^(κ(κ+1)/2 - j + (κ+1)(τ-κ-1))`;
 * `automated_clique_exactE`  … which is (C15) the exact bond-percolation expectation `exactE` on `K_τ`;
 * `clique_exact_of_counts`   CONDITIONAL: if the recursion `Q` counts connected labelled graphs (`Q_eq_connCount_full`, a purely
-                             combinatorial statement, not proved here) then `clique_equation` IS the automated equation on
+                             combinatorial statement, proved in `Properties/C16Cayley.lean`) then `clique_equation` IS the automated equation on
                              `K_τ` (`clique_exact_full`), for every `τ ≥ 1` and over every commutative ring;
 * `clique_exact_small`       unconditional for `τ ≤ 5` (uses the kernel-checked table `Q_eq_connCount_small_all`).
 -/
